@@ -62,39 +62,87 @@ func addrPath(a ssa.Value) (string, bool) {
 	return "", false
 }
 
+// valName: the register name of a value, qualified by its function (forms may mix values of a function and of its
+// private helpers).
+func valName(v ssa.Value) string {
+	if in, ok := v.(ssa.Instruction); ok && in.Parent() != nil {
+		return v.Name() + "@" + in.Parent().Name()
+	}
+	if p, ok := v.(*ssa.Parameter); ok && p.Parent() != nil {
+		return v.Name() + "@" + p.Parent().Name()
+	}
+	return v.Name()
+}
+
 func gfsAtom(v ssa.Value) (string, bool) {
+	if r := resolveHelperValue(v); r != v {
+		// the value crosses the boundary of a private helper: an atom only if what it stands for is one
+		if a, ok := gfsAtom(stripIntConv(r)); ok {
+			return a, true
+		}
+		return "", false
+	}
 	if p, ok := fieldPath(v); ok {
 		return "f:" + p, true
 	}
 	switch x := v.(type) {
 	case *ssa.Parameter:
-		return "p:" + x.Name(), true
+		return "p:" + valName(x), true
 	case *ssa.Phi:
-		return "phi:" + x.Name(), true
+		return "phi:" + valName(x), true
 	case *ssa.Call:
 		if b, ok := x.Call.Value.(*ssa.Builtin); ok && b.Name() == "len" {
 			if a, ok := gfsAtom(x.Call.Args[0]); ok {
 				return "len(" + a + ")", true
 			}
-			return "len(" + x.Call.Args[0].Name() + ")", true
+			return "len(" + valName(x.Call.Args[0]) + ")", true
 		}
-		return "v:" + x.Name(), true
+		return "v:" + valName(x), true
 	case *ssa.Extract, *ssa.UnOp, *ssa.Index, *ssa.Lookup, *ssa.TypeAssert, *ssa.Field:
-		return "v:" + v.Name(), true
+		return "v:" + valName(v), true
 	case *ssa.BinOp:
 		if x.Op != token.ADD && x.Op != token.SUB {
-			return "v:" + v.Name(), true
+			return "v:" + valName(v), true
 		}
 	}
 	return "", false
 }
 
 func gfsLin(v ssa.Value) linForm {
-	f, ok := linOf(v, gfsAtom, 0)
+	f, ok := gfsLinOf(v, 0)
 	if !ok {
-		return linForm{coef: map[string]int64{"v:" + v.Name(): 1}}
+		return linForm{coef: map[string]int64{"v:" + valName(v): 1}}
 	}
 	return f
+}
+
+// gfsLinOf: linOf over gfsAtom that also looks through private helpers (a helper parameter bound to i+1 is i+1).
+func gfsLinOf(v ssa.Value, depth int) (linForm, bool) {
+	v = stripIntConv(v)
+	if r := resolveHelperValue(v); r != v && depth < 8 {
+		return gfsLinOf(r, depth+1)
+	}
+	if a, ok := gfsAtom(v); ok {
+		return linForm{coef: map[string]int64{a: 1}}, true
+	}
+	if k, ok := constInt(v); ok {
+		return linForm{coef: map[string]int64{}, k: k}, true
+	}
+	if depth > 8 {
+		return linForm{}, false
+	}
+	if bo, ok := v.(*ssa.BinOp); ok && (bo.Op == token.ADD || bo.Op == token.SUB) {
+		l, ok1 := gfsLinOf(bo.X, depth+1)
+		r, ok2 := gfsLinOf(bo.Y, depth+1)
+		if ok1 && ok2 {
+			sign := int64(1)
+			if bo.Op == token.SUB {
+				sign = -1
+			}
+			return l.add(r, sign), true
+		}
+	}
+	return linForm{}, false
 }
 
 func lf(k int64, terms ...interface{}) linForm {
@@ -113,7 +161,7 @@ func lf(k int64, terms ...interface{}) linForm {
 func atomOf(v ssa.Value) string {
 	a, ok := gfsAtom(stripIntConv(v))
 	if !ok {
-		return "v:" + v.Name()
+		return "v:" + valName(v)
 	}
 	return a
 }
@@ -121,7 +169,7 @@ func atomOf(v ssa.Value) string {
 // storesTo: the stores into field `name` of a value of named type tn (a literal under construction or the receiver).
 func storesToField(fn *ssa.Function, tn *types.Named, name string) []*ssa.Store {
 	var out []*ssa.Store
-	allInstrs(fn, func(in ssa.Instruction) {
+	coneInstrs(fn, func(in ssa.Instruction) {
 		st, ok := in.(*ssa.Store)
 		if !ok {
 			return
@@ -147,7 +195,7 @@ func ruleGfs1(c *Ctx, r *Reporter) {
 	final := fn.Params[1]
 	// the append of a chunk and the slice it appends to
 	var app *ssa.Call
-	allInstrs(fn, func(in ssa.Instruction) {
+	coneInstrs(fn, func(in ssa.Instruction) {
 		if call, ok := in.(*ssa.Call); ok {
 			if b, ok := call.Call.Value.(*ssa.Builtin); ok && b.Name() == "append" && innermostLoopHeader(call.Block()) != nil {
 				app = call
@@ -194,7 +242,7 @@ func ruleGfs1(c *Ctx, r *Reporter) {
 			for a, cf := range width.coef {
 				if cf == 1 {
 					// find the value with that atom
-					allInstrs(fn, func(in ssa.Instruction) {
+					coneInstrs(fn, func(in ssa.Instruction) {
 						if v, ok := in.(ssa.Value); ok && sizeV == nil && atomOf(v) == a {
 							sizeV = v
 						}
@@ -270,9 +318,9 @@ func ruleGfs1(c *Ctx, r *Reporter) {
 	}
 	// (5) a partial chunk is cut only when final
 	partialOK := false
-	allInstrs(fn, func(in ssa.Instruction) {
+	coneInstrs(fn, func(in ssa.Instruction) {
 		iff, ok := in.(*ssa.If)
-		if !ok || iff.Cond != ssa.Value(final) {
+		if !ok || resolveHelperValue(iff.Cond) != ssa.Value(final) {
 			return
 		}
 		b := iff.Block()
@@ -318,7 +366,7 @@ func ruleGfs1(c *Ctx, r *Reporter) {
 		}
 		// (7) remainder moved to the front
 		moved := false
-		allInstrs(fn, func(in ssa.Instruction) {
+		coneInstrs(fn, func(in ssa.Instruction) {
 			call, ok := in.(*ssa.Call)
 			if !ok {
 				return
@@ -356,10 +404,10 @@ func ruleGfs1(c *Ctx, r *Reporter) {
 	}
 	// (8) the cut chunks are inserted
 	ins := false
-	allInstrs(fn, func(in ssa.Instruction) {
+	coneInstrs(fn, func(in ssa.Instruction) {
 		if call, ok := in.(*ssa.Call); ok && call.Call.IsInvoke() && call.Call.Method.Name() == "InsertMany" {
 			for _, a := range call.Call.Args {
-				if a == ssa.Value(chunksPhi) {
+				if resolveHelperValue(a) == ssa.Value(chunksPhi) {
 					ins = true
 				}
 			}
@@ -368,7 +416,7 @@ func ruleGfs1(c *Ctx, r *Reporter) {
 	r.check(ins, "upload:chunks inserted", pos, "InsertMany receives the cut chunks", "the list of cut chunks is not what InsertMany receives")
 	// (9) the chunk data are windows into s.buffer: they must be written out before the buffer is rearranged
 	var insCall, moveCall ssa.Instruction
-	allInstrs(fn, func(in ssa.Instruction) {
+	coneInstrs(fn, func(in ssa.Instruction) {
 		call, ok := in.(*ssa.Call)
 		if !ok {
 			return
@@ -517,6 +565,68 @@ func ruleGfs2(c *Ctx, r *Reporter) {
 	r.check(numOK, "Resume:chunk numbers", pos, "chunk.Num != expected is rejected", "stored chunks are not required to be numbered 0,1,2,...")
 }
 
+// chunkNumTests: the values a fetched chunk's number is tested against with != in fn - written in fn itself
+// (chunk.Num != y) or in a repo function fn hands the chunk to and whose error it examines (check(&chunk, y) with
+// `c.Num != n` inside: y is the argument bound to n).
+func chunkNumTests(fn *ssa.Function) []ssa.Value {
+	var out []ssa.Value
+	allInstrs(fn, func(in ssa.Instruction) {
+		switch x := in.(type) {
+		case *ssa.BinOp:
+			if x.Op != token.NEQ {
+				return
+			}
+			if px, ok := fieldPath(x.X); ok && strings.HasSuffix(px, ".Num") {
+				out = append(out, x.Y)
+			}
+		case *ssa.Call:
+			h := staticFn(&x.Call)
+			if h == nil || h.Blocks == nil || h.Pkg != fn.Pkg || len(errChecksOf(errorResult(x))) == 0 {
+				return
+			}
+			allInstrs(h, func(hin ssa.Instruction) {
+				bo, ok := hin.(*ssa.BinOp)
+				if !ok || bo.Op != token.NEQ {
+					return
+				}
+				ld, ok := bo.X.(*ssa.UnOp)
+				if !ok || ld.Op != token.MUL {
+					return
+				}
+				fa, ok := ld.X.(*ssa.FieldAddr)
+				if !ok || structFieldOf(fa).Name() != "Num" {
+					return
+				}
+				if _, isParam := fa.X.(*ssa.Parameter); !isParam {
+					return
+				}
+				py, ok := bo.Y.(*ssa.Parameter)
+				if !ok {
+					return
+				}
+				// the test must reject: its true edge leads to a non-nil error
+				rejects := false
+				if refs := bo.Referrers(); refs != nil {
+					for _, ref := range *refs {
+						if iff, ok := ref.(*ssa.If); ok && failEdgeReturnsError(errCheck{If: iff, FailSucc: iff.Block().Succs[0], OkSucc: iff.Block().Succs[1]}) {
+							rejects = true
+						}
+					}
+				}
+				if !rejects {
+					return
+				}
+				for i, p := range h.Params {
+					if p == py && i < len(x.Call.Args) {
+						out = append(out, x.Call.Args[i])
+					}
+				}
+			})
+		}
+	})
+	return out
+}
+
 func ruleGfs3(c *Ctx, r *Reporter) {
 	seek := c.lookupSSA(pkgLungo, "DownloadStream.seek")
 	next := c.lookupSSA(pkgLungo, "DownloadStream.next")
@@ -570,14 +680,11 @@ func ruleGfs3(c *Ctx, r *Reporter) {
 	r.check(filterOK, "seek:file filter", pos, "chunks are selected by files_id = file.ID", "the chunk cursor is not restricted to files_id = file.ID")
 	// number check
 	numChk := false
-	allInstrs(seek, func(in ssa.Instruction) {
-		if bo, ok := in.(*ssa.BinOp); ok && bo.Op == token.NEQ {
-			px, okx := fieldPath(bo.X)
-			if okx && strings.HasSuffix(px, ".Num") && bo.Y == ssa.Value(num) {
-				numChk = true
-			}
+	for _, y := range chunkNumTests(seek) {
+		if y == ssa.Value(num) {
+			numChk = true
 		}
-	})
+	}
 	r.check(numChk, "seek:first chunk number", pos, "chunk.Num != num is rejected", "the fetched chunk is not required to carry the computed number")
 	// offset and buffer
 	bufs := storesToField(seek, dsT, "buffer")
@@ -620,22 +727,16 @@ func ruleGfs3(c *Ctx, r *Reporter) {
 	r.check(endOK, "seek:past the end", pos, "position >= file.Length leaves nothing to read", "a position at or beyond the file length is not recognised as end of file")
 	// ---- next ----
 	consec := false
-	allInstrs(next, func(in ssa.Instruction) {
-		if bo, ok := in.(*ssa.BinOp); ok && bo.Op == token.NEQ {
-			px, okx := fieldPath(bo.X)
-			if !okx || !strings.HasSuffix(px, ".Num") {
-				return
-			}
-			d := gfsLin(bo.Y)
-			if d.k == 1 && len(d.coef) == 1 {
-				for a, cf := range d.coef {
-					if cf == 1 && strings.HasSuffix(a, "chunk.Num") {
-						consec = true
-					}
+	for _, y := range chunkNumTests(next) {
+		d := gfsLin(y)
+		if d.k == 1 && len(d.coef) == 1 {
+			for a, cf := range d.coef {
+				if cf == 1 && strings.HasSuffix(a, "chunk.Num") {
+					consec = true
 				}
 			}
 		}
-	})
+	}
 	r.check(consec, "next:consecutive numbers", c.pos(next.Pos()), "chunk.Num != s.chunk.Num+1 is rejected", "the next chunk is not required to carry the previous number + 1")
 	// ---- load ----
 	quo, rem := false, false
